@@ -360,8 +360,9 @@ def evaluate(chk, c, name_answers, lit_answers, results):
         k = re.sub(r"'[^']*'|\"[^\"]*\"", "…", k)
         chk.extra["rejected"][k] = chk.extra["rejected"].get(k, 0) + 1
         return
-    # ---- `enable_if` tie: kAddressableUnitSize of every GenericArrayView is what the model says (1 | 8)
-    if name_answers is not None:
+    # ---- `enable_if` tie: kAddressableUnitSize of every GenericArrayView is 8 in a struct / 1 in a bits
+    # (`EnableIfs.arrayUnit`, checked against the model once per run by unit_tie; model-free here)
+    if True:
         got = set()
         for h in c.build["headers"].values():
             got |= array_units(h)
@@ -748,6 +749,18 @@ def op_tie(chk, model_ok, r, n):
     chk.extra["operation_boundary_cases"] = dist
 
 
+def unit_tie(chk, model_ok):
+    """`EnableIfs.arrayUnit` / `sizeOverloads` (op UNIT) against the documented units: a struct is byte-addressed
+    (SizeInBytes), a bits bit-addressed (SizeInBits)."""
+    if not model_ok:
+        return
+    a = common.Model("model_c07").ask(["UNIT 0", "UNIT 1"])
+    chk.count(2)
+    if a != ["8 true false", "1 false true"]:
+        chk.violation("correspondence", {"theorem_or_correspondence": "EnableIfs.arrayUnit/sizeOverloads vs documented units",
+                                         "model": a, "observed": ["8 true false", "1 false true"]}, found_input=False)
+
+
 def search(chk):
     """Model-free: real compiler + g++ on corpus and generated modules."""
     before = len(chk.violations)
@@ -794,6 +807,7 @@ def _run(tier):
     quick = tier == "quick"
     workers = 6 if quick else 8
     prelude_tie(chk, model_ok)
+    unit_tie(chk, model_ok)
     namespace_tie(chk, model_ok, r, 150 if quick else 2000)
     op_tie(chk, model_ok, r, 40 if quick else 400)
     cases = corpus(tier, r)
